@@ -43,6 +43,18 @@ CHECKS = {
    ref="DESIGN.md §5 C15"),
 }
 
+CHECKS["C16"] = dict(
+   technique="Coq proofs (decimal rendering by induction; MapClear; invariant proof over a transition system of WaitTimeout with unboundedly many stale helpers and an arbitrary environment) + per-run obligations on regenerated bodies incl. the pinned delegate + differential and scenario runs",
+   text="Theorems: UInt64ToString's model yields digits only, no leading zero, denotes the number (hence injective) for every uint64; the builtin clear empties any map (the original delete loop: proved for reflexive keys, refuted for NaN keys — repaired in /repo); Assume/Assert panic iff the argument is false; WaitTimeout as a transition system (caller calling any number of times, one helper per call, mutex, notify list, timer, arbitrary environment): returns with the lock held, the lock stays the caller's until it unlocks (stale helpers never take it away), no unlock of an unlocked mutex, no deadlock inside the call. Per run: bodies of the machine functions and of primitive.WaitTimeout (pinned module) are the modelled code; UInt64ToString compared with the extracted model; MapClear on three key types incl. NaN; WaitTimeout scenarios with TryLock probes and measured times.",
+   note="partial: wall-clock bounds of WaitTimeout are measured (with scheduling slack), not proved; the Go runtime's sync.Cond/Mutex/select semantics are modelled by hand.",
+   ref="DESIGN.md §5 C16")
+CHECKS["C18"] = dict(
+   technique="Coq proofs about a line-scanner model of both generators (line lemma, one test per test function for every declaration list, file order/skipping, generators agree; unrestricted statement refuted) + per-run obligation on the regenerated main.go + byte-exact differential run + property oracle + go vet",
+   text="Theorems: the header line of any top-level function yields exactly the test its name denotes; methods and lines not starting with 'func'+space yield nothing; hence for every file built from any list of declarations exactly one test per test function in source order, failing ones marked; files are processed in order and *_test.go/*.gold.v/backup files contribute nothing; both generators emit the same tests. Per run main.go (regular expressions, filter, templates) is compared with the frozen text, the real test_gen's stdout in both modes is compared byte-for-byte with the extracted model on generated gofmt-formatted directories, the emitted tests are compared with the functions the directory declares, and the generated Go file is vetted.",
+   note="Two known findings (line-based scanning of raw strings/comments; TestX name clash of testX and failing_testX) are listed in known_findings.json and excluded from the partial theorem by its hypotheses. Model reflects /repo after two fix: commits (shared file filter; identifier characters).",
+   ref="DESIGN.md §5 C18")
+
+
 def main():
     checks = []
     for pid in ALL:
